@@ -501,6 +501,10 @@ func run(c *mon.Ctx) {
 			cfg.Keys = nil
 		}
 		tree := cfg.Tree(r)
+		if i%25 == 7 {
+			// table-like data whose columns hold cells of mixed kinds (the aligned pretty writer)
+			tree = cfg.Table(r)
+		}
 		if i%50 == 3 {
 			// a text longer than the default WriteLimit
 			big := make([]any, 150+r.Intn(100))
